@@ -21,7 +21,7 @@ RULE = ("streams of 1-8 frames. Beast: types '1' Mode-AC, '2' short, '3' long, '
         "DF/length admission; after every read the output so far is a prefix of it, contains every admissible frame whose successor start has been "
         "delivered, and equals it at the end; both Beast readers. NetSource.handle_messages with a stub pipe: everything sent + local buffers == long "
         "DF17/18 resp. DF20/21 messages handed in, in order, once. non-trivial = a cut strictly inside a frame (Beast: adjacent to / inside an escaped pair)"
-        ' Also: reader output fed to NetSource under several segmentations with frames repeated back to back (leg pipeline), TcpClient.run() itself on a scripted socket with receive timeouts between pieces, reads of at most 4096 bytes and streams of up to ~20 KiB (leg run_loop), stretches of 200-12000 Comm-B messages and duplicates with equal time stamps and time stamps that start at 0 / 0.0, wrap at midnight, run backwards or are arbitrary in the NetSource / RtlSdrSource leg, a libFuzzer campaign in the thorough tier.')
+        ' Also: reader output fed to NetSource under several segmentations with frames repeated back to back (leg pipeline), TcpClient.run() itself on a scripted socket with receive timeouts between pieces, reads of at most 4096 bytes, streams of up to ~20 KiB that end exactly on a full-size read, and a 1-9 byte piece cut out at every position (leg run_loop), stretches of 200-12000 Comm-B messages and duplicates with equal time stamps and time stamps that start at 0 / 0.0, wrap at midnight, run backwards or are arbitrary in the NetSource / RtlSdrSource leg, a libFuzzer campaign in the thorough tier.')
 ASSUMPTIONS = ["wall-clock timestamps attached by the Beast/raw readers are ignored; Skysense timestamps are compared with the record's own field",
                "a Beast frame counts as completely received once the next <esc> and its type byte have been delivered",
                "the zmq socket is not involved: the harness owns the chunking"]
@@ -434,6 +434,13 @@ def chk_runloop(case, note):
     want = [m for m in exp if m is not None]
     n = len(stream)
     variants = [[], [1 + x % max(1, n - 1) for x in case["cuts"]]] + [[c] for c in range(1, n, max(1, n // (16 if n < 5000 else 5)))]
+    if n < 400:
+        # a short piece of 1-9 bytes cut out at every position (two cuts), its length varying with the position and the case
+        salt = sum(case["cuts"][:2]) if case["cuts"] else len(case["frames"])
+        variants += [[c, c + 1 + (c * 7 + salt) % 9] for c in range(1, n - 1)]
+    if n > 4096:
+        # the stream ends exactly on a full-size read; and on two of them
+        variants += [[n - 4096], [n - 8192, n - 4096] if n > 8192 else [n - 4096, n - 1]]
     for cuts in variants:
         bounds = sorted(set(x for x in cuts if 0 < x < n)) + [n]
         script, pos = [], 0
